@@ -20,8 +20,11 @@ import time
 ROOT = os.path.dirname(os.path.dirname(os.path.abspath(__file__)))
 COQ = os.path.join(ROOT, "coq")
 HARNESS = os.path.join(ROOT, "harness")
-RUNS = os.path.join(ROOT, "runs")
-REPO = "/repo"
+# VERIF_REPO / VERIF_RUNS redirect a run to another checkout of the library (used by the integrator to try
+# seeded regressions in a scratch worktree without disturbing /repo); registered checks never set them.
+RUNS = os.environ.get("VERIF_RUNS") or os.path.join(ROOT, "runs")
+REPO = os.environ.get("VERIF_REPO") or "/repo"
+EVID = os.path.join(ROOT, "evidence") if not os.environ.get("VERIF_RUNS") else os.path.join(RUNS, "evidence")
 NCPU = 16
 
 GATE_RE = re.compile(
@@ -211,6 +214,12 @@ def build_harness(pkg, tags="verif", race=False, timeout=900):
     os.makedirs(os.path.join(RUNS, "bin"), exist_ok=True)
     outp = os.path.join(RUNS, "bin", pkg + ("_race" if race else ""))
     cmd = ["go", "build", "-tags", tags, "-o", outp]
+    if REPO != "/repo":
+        alt = os.path.join(RUNS, "go.alt.mod")
+        gm = open(os.path.join(HARNESS, "go.mod")).read().replace("=> /repo", "=> " + REPO)
+        open(alt, "w").write(gm)
+        shutil.copy(os.path.join(HARNESS, "go.sum"), os.path.join(RUNS, "go.alt.sum"))
+        cmd.append("-modfile=" + alt)
     env = go_env()
     if race:
         cmd.append("-race")
@@ -361,8 +370,8 @@ class Ctx:
             "coverage": cov, "assumptions": self.assumptions, "wall_s": wall,
             "violations": len(self.violations), "notes": self.notes,
         }
-        os.makedirs(os.path.join(ROOT, "evidence"), exist_ok=True)
-        with open(os.path.join(ROOT, "evidence", self.prop + ".json"), "w") as f:
+        os.makedirs(EVID, exist_ok=True)
+        with open(os.path.join(EVID, self.prop + ".json"), "w") as f:
             json.dump(ev, f, indent=1, default=str)
         for fid, what in self.known_hit:
             print("KNOWN-FINDING: property=%s %s: %s" % (self.prop, fid, what), flush=True)
